@@ -391,6 +391,9 @@ int __wrap_pthread_mutex_unlock(pthread_mutex_t *m) {
     Locked l;
     decide(tl_self, K_UNLOCK);
     unlock_model(tl_self, m);
+    // a second decision right after the release: code that follows an unlock (a store that should have been inside
+    // the critical section, a notify) races with whoever was waiting for the mutex
+    decide(tl_self, K_UNLOCK);
     return 0;
 }
 
